@@ -510,6 +510,7 @@ class StereoCondensedReactionGraph(StereoMolGraph, CondensedReactionGraph):
         :param mol_graphs: list of MolGraph objects
         :return: Returns Combined MolGraph
         """
+        mol_graphs = tuple(mol_graphs)  # iterated twice
         graph = cls(super().compose(mol_graphs))
         for mol_graph in mol_graphs:
             graph._atom_stereo_change.update(
